@@ -565,7 +565,11 @@ def job_every_draw(tier, rng, part=(0, 1)):
         oid = f'{PROP}.valid_for_every_draw.{label}'
         try:
             r, gen = _every_draw(fn, _record=record, _linalg=linalg, **kw)
-            res = clauses(r, gen)
+            try:
+                res = clauses(r, gen)
+            except (IndexError, KeyError, ValueError, TypeError, AttributeError) as e:
+                # the clause reads the draw log (which draws were made, in which shapes); a generator that draws differently is outside what the clause is phrased for
+                out.append(ob(oid, 'undecided', functions=functions, tier='P', backend='sympy', engine_suspect=True, detail=f'the generator does not draw the way this clause reads the draw log: {type(e).__name__}: {e}')); return
         except _Unsupported as e:
             out.append(ob(oid, 'undecided', functions=functions, tier='P', backend='sympy', detail=f'engine: {e}')); return
         except Exception as e:
